@@ -407,6 +407,11 @@ func runProp(p *Prog, prop string, secs int, smtDir string) ([]*funcResult, []st
 			}
 		}
 		fn := p.funcs[name]
+		if fn != nil && fn.Synthetic != "" {
+			problems = append(problems, fmt.Sprintf("contract names %s, which is a compiler-generated wrapper (%s); name the declared method instead", name, fn.Synthetic))
+			results = append(results, &funcResult{spec: sp})
+			continue
+		}
 		if fn == nil || fn.Blocks == nil {
 			problems = append(problems, fmt.Sprintf("contract names %s but no such function body exists (removed or renamed?)", name))
 			results = append(results, &funcResult{spec: sp})
